@@ -85,8 +85,8 @@ def handle (s : Node) : Op → Node
   | .shutdown => s.shutdown
 
 /-- One iteration of `stateLoop`: handler, then role transitions until stable. -/
-def step (s : Node) (op : Op) (rollAt order : List Nat) : Node :=
-  let s := s.begin rollAt order
+def step (s : Node) (op : Op) (rollAt : List Nat) (orders : List (List Nat)) : Node :=
+  let s := s.begin rollAt orders
   let cur := s.role
   let s := s.handle op
   match op with
